@@ -95,6 +95,11 @@ def run(res, tier, seed, replay):
     for _ in range(40 if quick else 400):
         ks = sorted(rng.sample(range(30), rng.randint(2, 5)))
         cases.append(("ban=" + "+".join(map(str, ks)), base, ks))
+        # ... and the same kinds in ONE call, written in descending and in a random order
+        cases.append(("ban=" + "+".join(map(str, reversed(ks))), base, ks))
+        sh_ = list(ks)
+        rng.shuffle(sh_)
+        cases.append(("ban=" + "+".join(map(str, sh_)), base, ks))
         # the same set given as one option call per kind, in both orders: the ban set is the union of the calls
         cases.append(("split,ban=" + "+".join(map(str, ks)), base, ks))
         cases.append(("split,ban=" + "+".join(map(str, reversed(ks))), base, ks))
